@@ -550,13 +550,23 @@ Qed.
 Lemma lookup_rename1 : forall k no r, String.eqb k (fst no) = false -> String.eqb k (snd no) = false ->
   lookup k (rattrs (rename1 r no)) = lookup k (rattrs r).
 Proof.
-  intros k [n o] r H1 H2; unfold rename1; simpl in *. destruct (get_attr r o) as [v|]; [|reflexivity].
+  intros k [n o] r H1 H2; unfold rename1; simpl in *. destruct (String.eqb n o); [reflexivity|].
+  destruct (get_attr r o) as [v|]; [|reflexivity].
   simpl. rewrite lookup_remove_ne by exact H2. apply set_attr_lookup_ne; exact H1.
 Qed.
 Lemma rename1_id_seq : forall no r, is_special (fst no) = false -> rid (rename1 r no) = rid r /\ rseq (rename1 r no) = rseq r.
 Proof.
-  intros [n o] r H; unfold rename1; simpl in *. destruct (get_attr r o) as [v|]; [|auto].
+  intros [n o] r H; unfold rename1; simpl in *. destruct (String.eqb n o); [auto|].
+  destruct (get_attr r o) as [v|]; [|auto].
   simpl. apply set_attr_id_seq; exact H.
+Qed.
+(** renaming attributes to their own names is the identity on the whole record *)
+Lemma rename_self_identity : forall l r, forallb (fun no : string * string => String.eqb (fst no) (snd no)) l = true ->
+  fold_left rename1 l r = r.
+Proof.
+  intros l; induction l as [|x t IH]; intros r H; simpl; [reflexivity|].
+  simpl in H. apply andb_true_iff in H; destruct H as [H1 H2].
+  unfold rename1 at 2. rewrite H1. apply IH; exact H2.
 Qed.
 Lemma lookup_rename_fold : forall l k r,
   existsb (fun no : string * string => String.eqb k (fst no) || String.eqb k (snd no)) l = false ->
